@@ -12,7 +12,7 @@ from fiddle._src import diffing
 from harness import common, l2, c02, c06
 from harness.common import Failure, Result, Stream, g_list, g_pair, g_N, g_Z
 
-COQ_TARGETS = ["theories/C10Check.vo", "theories/AnchorsDiff.vo"]
+COQ_TARGETS = ["theories/C10Check.vo", "theories/C10Hyps.vo", "theories/AnchorsDiff.vo"]
 TRUSTED_BASE = ["the alignment heuristics (which depend on len(repr(value))) are not modelled: the Coq model covers "
                 "_apply_changes on resolved diffs; construction of the diff is decided by the round-trip oracle"]
 ASSUMPTIONS = []
@@ -282,9 +282,14 @@ def run(tier: str, seed: int) -> Result:
                      "From Fiddle Require Import PySlice Sig ArgStore PyCall Heap Traverse Tags History Diff DiffBuild C10Check.",
                      "C10Check.rt_case", "C10Check.check_rt")
   res.streams.append(rt_stream)
+  hyp_stream = Stream("c10_theorem_hypotheses",
+                      "From Fiddle Require Import PySlice Sig ArgStore PyCall Heap Traverse Tags History Diff DiffBuild C10Check C10Hyps.",
+                      "C10Check.rt_case", "C10Hyps.hyps_rt", informational=True)
+  res.streams.append(hyp_stream)
   n = 400 if tier == "quick" else 12000
   for i in range(n):
     one_pair(rng, res, intern, stream, f"pair#{i}")
   for i in range(n):
     roundtrip_case(rng, res, intern, rt_stream, f"rt#{i}")
+  hyp_stream.cases, hyp_stream.meta = rt_stream.cases, rt_stream.meta
   return res
